@@ -324,6 +324,9 @@ FORMS = ["5 * (8h * t)", "(7 * 10y^3) * x", "(7q * 10y^3) * x", "792z^4 * 490f *
          "-6 + 4", "-12 + 8", "-6 + -9", "12 + -8", "-4 + -6x", "-6x + -9x",
          "12345678901234567890 * 98765432109876543210", "99999999999999999999 + 1", "2000000000.5 + 1", "1000000 + 0.0005", "4000000.002 * 2", "123456.5 - 0.25",
          "0.000002 * 0.0000003 * x + 0.5", "0.00000000000000001 * 0.00000000000000001", "1 / 3 + x", "(2 / 3) * x", "10 / 4", "7 / -2",
+         "(4 + (y + 2x)) + 3x", "(y + (4 + 2x^2)) + -3x^2", "(z + (y + x)) + x", "2x + ((3x + y) + 4)", "x^2 + ((-x^2 + y) + z)", "0.5x + ((0.5x + y) + 1)",
+         "(y + 2x) + (3x + z)", "(4 + x^2) + (x^2 + y)", "(y + -x) + (-x + 1)", "(y + 12x) + (8x + z)",
+         "4 + -2x^3", "y + -3x^2", "2x + -0.5x^2", "(x + 1) + -4y^3", "-(3 + 2)", "-(4 * 2)", "-(2 - 5)", "-(6 / 4)", "-(2 ^ 3)", "x + -(3 * 0.5)", "-(0 + 0)",
          "x^0 * x^2", "x^(2 - 2) * x^3", "x^0 + x^0", "0x + 0x", "1x * 1x", "-x * -x", "-x + -x", "x^-1 * x", "2x^-2 * 3x^2"]
 EQ_FORMS = ["x + 1 = y = 3", "x = y + 2 = 5", "2x = 4 = y + 1", "0.00000000001x = 2", "0.0000001x = 3", "y + 4x * 2X^2 = 7", "3x + 4X = 7", "x + -2y^2 = 3", "7 = 4x + -y^3", "-2x^2 + 1 = 9", "x + -0.5y^3 = 2", "2 * ((x + 1) + 5) = 20", "((x + 1) + 5)^2 = 4", "-((x + 1) + 5) = 3", "4 - ((x + 1) + y) = 0",
             "((x + 1) + 5) / 2 = y", "sgn((x + 1) + 2) = 1", "3x = 6 + 9y", "7 = 2 + 4x + y", "a + (3b + c) = 9", "7 = x + 2 + y", "y + (x + 2) = 7", "3 = x + 2 + 7",
